@@ -126,8 +126,8 @@ add('C28', 'exploration',
     'replayed twice in-process and in fresh interpreters under 5 (8 in thorough) hash seeds, every other replay with the programs in '
     'reverse order (no connection may depend on the connections served before it); some programs lower the documented '
     'MAX_CLOSED_STREAMS knob and cross the cap of the closed-stream memory; per-step digests of output bytes, '
-    'canonical events and exception type+code must be identical; clock/random/socket entry points raise while a call runs.',
-    'Exception message text is not compared.')
+    'canonical events, exception type+code and message text must be identical; clock/random/socket entry points raise while a call runs.',
+    'Exception message text is compared after the elements of set literals in it have been sorted (their order follows the hash seed).')
 
 add('C27', 'exploration',
     'runtime monitoring: structural invariants on live containers at quiescent points under long hostile frame sequences',
